@@ -37,4 +37,45 @@ theorem tie_update_corners_given (x0 : Rat) (x1 : Option Rat) (y0 y1 west east :
     Gen.update_corners_shape (some x0, y0, x1, y1) s west east = (some x0, y0, x1, y1) := by
   simp [Gen.update_corners_shape]
 
+/-- the statements of `freeze` between the projection handling and the `return` (the body of the final `if` — the call of
+`compute_domain(corners, resolution, shape, projection)` — and the `return AreaDefinition(…, width, height, area_extent)` are required
+verbatim; the `if`'s test is translated), as translated from /repo's current source, are the model's `freezePlan` -/
+theorem tie_freeze_plan (argRes selfRes : Option Rat) (argShape : Option (Option Int × Option Int)) (selfShape : Option Int × Option Int)
+    (selfExtent : Option (Rat × Rat × Rat × Rat)) :
+    Gen.freeze_plan argRes selfRes argShape selfShape selfExtent =
+      (let p := C14.freezePlan argRes selfRes argShape selfShape selfExtent
+       (p.res, p.shape, p.height, p.width, p.extent, p.need)) := by
+  rcases selfShape with ⟨s1, s2⟩
+  cases argRes <;> rcases argShape with _ | ⟨a1, a2⟩
+  all_goals first
+    | (cases a1 <;> cases a2 <;> cases s1 <;> cases s2 <;> simp [Gen.freeze_plan, C14.freezePlan, C14.dimGiven, Option.orElse])
+    | (cases s1 <;> cases s2 <;> simp [Gen.freeze_plan, C14.freezePlan, C14.dimGiven, Option.orElse])
+
+/-- **explicitly given extent and shape are kept**: with an extent on the instance and two non-zero dimensions (as arguments or on
+the instance) nothing is computed — the regenerated plan returns exactly that extent, width and height to the constructor call -/
+theorem code_freeze_keeps_explicit (argRes selfRes : Option Rat) (argShape : Option (Option Int × Option Int))
+    (selfShape : Option Int × Option Int) (e : Rat × Rat × Rat × Rat) (h w : Int)
+    (hs : argShape.getD selfShape = (some h, some w)) (hh : h ≠ 0) (hw : w ≠ 0) :
+    let r := Gen.freeze_plan argRes selfRes argShape selfShape (some e)
+    r.2.2.2.2.2 = false ∧ r.2.2.2.2.1 = some e ∧ r.2.2.1 = some h ∧ r.2.2.2.1 = some w := by
+  intro r
+  have h0 : r = _ := tie_freeze_plan argRes selfRes argShape selfShape (some e)
+  rw [h0]
+  simp [C14.freezePlan, hs, C14.dimGiven, hh, hw]
+
+/-- **an explicit argument wins**: the resolution / shape given to `freeze` is what `compute_domain` gets, the instance's value
+only when the argument is `None`; without an extent the domain is always computed from the data -/
+theorem code_freeze_argument_wins (r selfRes : Option Rat) (rq : Rat) (sh : Option Int × Option Int)
+    (selfShape : Option Int × Option Int) (ext : Option (Rat × Rat × Rat × Rat)) :
+    (Gen.freeze_plan (some rq) selfRes (some sh) selfShape ext).1 = some rq ∧
+    (Gen.freeze_plan none selfRes (some sh) selfShape ext).1 = selfRes ∧
+    (Gen.freeze_plan r selfRes (some sh) selfShape ext).2.2.1 = sh.1 ∧
+    (Gen.freeze_plan r selfRes none selfShape ext).2.2.1 = selfShape.1 ∧
+    (Gen.freeze_plan r selfRes (some sh) selfShape none).2.2.2.2.2 = true := by
+  simp [tie_freeze_plan, C14.freezePlan, Option.orElse]
+
+example : Gen.freeze_plan none (some 1000) none (some 10, none) none = (some 1000, none, some 10, none, none, true) := by rfl
+example : Gen.freeze_plan none none (some (some 4, some 5)) (none, none) (some (0, 0, 5, 4)) =
+    (none, some (some 4, some 5), some 4, some 5, some (0, 0, 5, 4), false) := by rfl
+
 end PyresampleModel.Tie
